@@ -59,6 +59,15 @@ ASSUMPTIONS = [
 
 EV = "org.verif.ev"
 LOG = []
+CURRENT = [None]     # the stack under test: a recorder that is not part of it logs under another name
+
+
+def _who(layer, name):
+    try:
+        mine = CURRENT[0] is None or layer.getStack() is CURRENT[0]
+    except Exception:
+        mine = True
+    return name if mine else name + "@earlier_stack"
 
 
 class _StopLoop(BaseException):
@@ -86,11 +95,11 @@ def make_recorder(spec, base=None):
             fn(d + [name + "'"])
 
     def send(self, d):
-        LOG.append(("send", name, tuple(d)))
+        LOG.append(("send", _who(self, name), tuple(d)))
         _fwd(self, self.toLower, d)
 
     def receive(self, d):
-        LOG.append(("recv", name, tuple(d)))
+        LOG.append(("recv", _who(self, name), tuple(d)))
         _fwd(self, self.toUpper, d)
 
     def __init__(self):
@@ -106,12 +115,12 @@ def make_recorder(spec, base=None):
     if hook == "callback":
         @EventCallback(EV)
         def on_ev(self, ev):
-            LOG.append(("ev", name))
+            LOG.append(("ev", _who(self, name)))
             return consume
         ns["on_ev"] = on_ev
     else:
         def onEvent(self, ev):
-            LOG.append(("ev", name))
+            LOG.append(("ev", _who(self, name)))
             return consume and ev.getName() == EV
         ns["onEvent"] = onEvent
     if base is not None and hook == "callback":
@@ -285,7 +294,13 @@ def run_case(case):
     del LOG[:]
     _clear(YowStack)
     try:
+        if case.get("earlier_stack"):
+            # another stack has been assembled from the very same layer classes before (an application with two accounts, a stack
+            # that was rebuilt): it stays alive, the one under test is the later one
+            earlier = build_stack(case, classes)
+            out.label("same_classes_assembled_before")
         stack, objs, StackCls = build_stack(case, classes)
+        CURRENT[0] = stack
     except Exception as e:
         out.fail("assembly", "assembly:raises:%s" % type(e).__name__, {"error": repr(e)[:300]})
         return out
@@ -724,6 +739,8 @@ def shape_strategy():
         ev = {"dir": draw(st.sampled_from(["emit", "broadcast"])), "from": emitter, "detached": draw(st.booleans())}
         how = draw(st.sampled_from(["ctor", "ctor", "builder"]))
         case = {"sub": "shape", "items": items, "event": ev, "build": how}
+        if draw(st.integers(0, 3)) == 0:
+            case["earlier_stack"] = True
         if how == "ctor":
             case["order"] = draw(st.sampled_from(["bottom_up", "top_down"]))
         else:
